@@ -21,6 +21,7 @@ import (
 	"strings"
 	"sync"
 	"sync/atomic"
+	"syscall"
 	"time"
 
 	"github.com/formancehq/numscript/verifharness/rng"
@@ -78,6 +79,7 @@ type Ctx struct {
 	only           string
 	progress       *os.File
 	caseStart      atomic.Int64
+	caseStartCPU   atomic.Int64
 	curCase        atomic.Value
 
 	mu         sync.Mutex
@@ -114,6 +116,7 @@ func (c *Ctx) Want(i int, id string) bool {
 
 func (c *Ctx) begin(id string) {
 	c.curCase.Store(id)
+	c.caseStartCPU.Store(cpuNanos())
 	c.caseStart.Store(time.Now().UnixNano())
 	if c.progress != nil {
 		b := make([]byte, 256)
@@ -355,6 +358,15 @@ func onlyMain(a []string) {
 	writeOut(c, a[4], true)
 }
 
+// cpuNanos is the processor time (user + system) this process has used so far.
+func cpuNanos() int64 {
+	var ru syscall.Rusage
+	if syscall.Getrusage(syscall.RUSAGE_SELF, &ru) != nil {
+		return 0
+	}
+	return ru.Utime.Nano() + ru.Stime.Nano()
+}
+
 func startWatchdog(c *Ctx, p *Prop, out string) {
 	limit := int64(60)
 	if p.CaseLimit > 0 {
@@ -370,7 +382,13 @@ func startWatchdog(c *Ctx, p *Prop, out string) {
 			if st == 0 {
 				continue
 			}
-			if time.Now().UnixNano()-st > limit*int64(time.Second) {
+			// a case is over its budget when it has been running for more than the limit AND has itself
+			// consumed more than the limit of processor time (so that a loaded machine, which only
+			// stretches wall-clock time, does not trip the watchdog); a case that makes no progress
+			// without using the processor is caught by a far longer wall-clock bound
+			wall := time.Now().UnixNano() - st
+			cpu := cpuNanos() - c.caseStartCPU.Load()
+			if (wall > limit*int64(time.Second) && cpu > limit*int64(time.Second)) || wall > 20*limit*int64(time.Second) {
 				fmt.Fprintf(os.Stderr, "WATCHDOG: case %q exceeded %ds\n", c.Case(), limit)
 				buf := make([]byte, 1<<16)
 				n := runtime.Stack(buf, true)
